@@ -797,8 +797,11 @@ def snr_measurement(ctx, cfg):
             else:
                 struct.append(abs(a - 10 * Fraction(math.log10(float(ratio)))) <= Fraction(1, 1000))
             continue
+        textbook = S.div(b, c)
         if mode == "linear":
             ok, dd = rat_eq(a, code_form)
+            if not ok:
+                ok, dd = rat_eq(a, textbook)  # the exact textbook value is of course admissible too
         else:
             apps = uf_apps(a.e, "log10")
             ok = len(apps) == 1
@@ -808,21 +811,209 @@ def snr_measurement(ctx, cfg):
                 rest = z3.simplify(z3.substitute(a.e, (apps[0], L)) - 10 * L, som=True)
                 ok = z3.is_rational_value(rest) and rest.numerator_as_long() == 0
                 ok2, dd = rat_eq(S.Sym(apps[0].arg(0)), code_form)
+                if not ok2:
+                    ok2, dd = rat_eq(S.Sym(apps[0].arg(0)), textbook)
                 ok = ok and ok2
         struct.append(ok)
         dens += [S.ne(v, 0) for v in dd]
-    ctx.ensure("returns_Ps_over_Pn_plus_eps" if mode == "linear" else "returns_10_log10_of_Ps_over_Pn_plus_eps", SP.conj(struct))
+    ctx.ensure("returns_Ps_over_Pn_or_Pn_plus_eps" if mode == "linear" else "returns_10_log10_of_Ps_over_Pn_or_Pn_plus_eps", SP.conj(struct))
     if ctx.mode != "sym":
         return
     ctx.ensure("denominators_nonzero", SP.conj(dens))
-    n_, d_ = S.Sym(z3.Real("n!lemma")), S.Sym(z3.Real("d!lemma"))
-    pre = S.land(S.lt(0, n_), S.le(floor, d_))
+    # step 2 is C07.snr_eps_lemma (discharged on its own: it does not mention the signals)
+
+
+@obligation("C07.snr_eps_lemma", function=FM + ":SignalToNoiseRatio.forward", configs=lambda tier: [Cfg("eps_lemma", "linear"), Cfg("eps_lemma", "db")], max_paths=4, timeout_ms=60000, crosscheck=0)
+def snr_eps_lemma(ctx, cfg):
+    """for all P_s = n > 0 and P_n = d >= 1e-3:  n/(d + eps) (the value SignalToNoiseRatio returns, see C07.snr_measurement step 1) is within
+    1.2e-4 relative of the textbook n/d, and 10 log10 of it within 1e-3 dB of 10 log10(n/d)   (eps = float32 machine epsilon)"""
+    mode = cfg[1]
+    floor = Fraction(1, 1000)
+    n_ = ctx.scalar("n", "real", sampler=lambda r: 10 ** r.uniform(-3, 3))
+    d_ = ctx.scalar("d", "real", sampler=lambda r: 10 ** r.uniform(-3, 3))
+    ctx.assume(S.land(S.lt(0, n_), S.le(floor, d_)))
+    if ctx.mode != "sym":
+        n_, d_ = Fraction(n_), Fraction(d_)
     ratio, code = S.div(n_, d_), S.div(n_, S.add(d_, EPS32))
     if mode == "linear":
-        body = S.land(S.le(code, ratio), S.le(S.mul(ratio, 1 - Fraction(12, 10**5)), code))
-        ctx.ensure("lemma_eps_moves_ratio_by_at_most_1.2e-4_relative", S.lor(S.lnot(pre), body))
+        ctx.ensure("eps_moves_ratio_by_at_most_1.2e-4_relative", S.land(S.le(code, ratio), S.le(S.mul(ratio, 1 - Fraction(12, 10**5)), code)))
+        return
+    if ctx.mode != "sym":
+        ctx.ensure("eps_moves_snr_by_at_most_1e-3_dB", abs(10 * math.log10(float(code)) - 10 * math.log10(float(ratio))) <= 1e-3)
+        return
+    la, lb = OC.slog10(code), OC.slog10(ratio)
+    log_quotient_axioms(S.zreal(code), S.zreal(la), S.zreal(ratio), S.zreal(lb), S.zreal(S.div(d_, S.add(d_, EPS32))))
+    ctx.ensure("eps_moves_snr_by_at_most_1e-3_dB", S.le(S.sabs(S.sub(S.mul(10, la), S.mul(10, lb))), Fraction(1, 1000)))
+
+
+# ================================================================================================ Laplacian channel
+FL = FA + ":LaplacianChannel."
+
+
+def _mp_eval(e, env):
+    """evaluate a quantifier-free real/bool z3 term with mpmath (uninterpreted log = natural logarithm)"""
+    import mpmath as mp
+
+    if z3.is_rational_value(e):
+        return mp.mpf(e.numerator_as_long()) / mp.mpf(e.denominator_as_long())
+    if z3.is_true(e):
+        return True
+    if z3.is_false(e):
+        return False
+    if z3.is_const(e):
+        return env[e.decl().name()]
+    k = e.decl().kind()
+    kids = [_mp_eval(c, env) for c in e.children()]
+    if k == z3.Z3_OP_ADD:
+        return sum(kids[1:], kids[0])
+    if k == z3.Z3_OP_SUB:
+        r = kids[0]
+        for c in kids[1:]:
+            r = r - c
+        return r
+    if k == z3.Z3_OP_MUL:
+        r = kids[0]
+        for c in kids[1:]:
+            r = r * c
+        return r
+    if k == z3.Z3_OP_DIV:
+        return kids[0] / kids[1]
+    if k == z3.Z3_OP_UMINUS:
+        return -kids[0]
+    if k == z3.Z3_OP_ITE:
+        return kids[1] if kids[0] else kids[2]
+    if k == z3.Z3_OP_LE:
+        return kids[0] <= kids[1]
+    if k == z3.Z3_OP_LT:
+        return kids[0] < kids[1]
+    if k == z3.Z3_OP_GE:
+        return kids[0] >= kids[1]
+    if k == z3.Z3_OP_GT:
+        return kids[0] > kids[1]
+    if k == z3.Z3_OP_EQ:
+        return kids[0] == kids[1]
+    if k == z3.Z3_OP_NOT:
+        return not kids[0]
+    if k == z3.Z3_OP_AND:
+        return all(kids)
+    if k == z3.Z3_OP_OR:
+        return any(kids)
+    if k == z3.Z3_OP_UNINTERPRETED and e.decl().name() == "log":
+        return mp.log(kids[0])
+    raise S.Unsupported(f"mpmath evaluation of {e.decl().name()}")
+
+
+def _lap_t_cfgs(tier):
+    return [Cfg("laplacian_transform", 2)] + ([Cfg("laplacian_transform", 3)] if tier == "thorough" else [])
+
+
+@obligation("C07.laplacian_transform", function=FL + "_get_laplacian_noise", configs=_lap_t_cfgs, max_paths=16, timeout_ms=60000, crosscheck=0)
+def laplacian_transform(ctx, cfg):
+    """contract of the callee used by C07.laplacian: _get_laplacian_noise(shape) = T(u) elementwise for ONE uniform draw u of that shape, with
+    T(1-u) = -T(u) (so E T = 0 for the symmetric uniform law) and E T^2 = 2(1-delta), delta <= 1e-3, obtained by mpmath quadrature of
+    the expression the real code produced.  crosscheck=0: log is uninterpreted in the solver model."""
+    import mpmath as mp
+    from kaira.channels.analog import LaplacianChannel
+
+    n = cfg[1]
+    chan = LaplacianChannel(scale=1.0)
+    dev = torch.device("cpu")
+    fn = chan._get_laplacian_noise
+    out = ctx.call(fn, (n,), dev)
+    ctx.ensure("returns", out.ok, note=repr(out.exc) if not out.ok else "")
+    if not out.ok:
+        return
+    t = out.value
+    draws = list(ctx.rng_draws)
+    ok = len(draws) == 1 and draws[0][1] == "uniform" and tuple(draws[0][2].shape) == (n,) and tuple(t.shape) == (n,) and not t.dtype.is_complex
+    ctx.ensure("one_uniform_draw_of_the_requested_shape", ok)
+    if not ok:
+        return
+    tv = PC(t)[0]
+    u = PC(draws[0][2])[0]
+    # elementwise: T_i depends on u_i only
+    own = []
+    for i in range(n):
+        m = oarr((n,), Fraction(1, 4))
+        m[i] = u[i]
+        ti = PC(eval_at(ctx, fn, ((n,), dev), {}, [(m, None)]))[0]
+        own.append(near(ti[i], tv[i], S.sabs(tv[i])))
+    ctx.ensure("elementwise", SP.conj(own))
+    # odd symmetry about 1/2 (u in (0,1); u = 0 has probability 0)
+    for v in u:
+        ctx.assume(S.lt(0, v))
+    mirror = np.array([S.sub(1, v) for v in u], dtype=object)
+    tm = PC(eval_at(ctx, fn, ((n,), dev), {}, [(mirror, None)]))[0]
+    ctx.ensure("odd_about_one_half", SP.conj(near(S.add(a, b), 0, S.sabs(a)) for a, b in zip(tm, tv)))
+    # moments of T(u), u uniform on (0,1)
+    if ctx.mode == "sym":
+        e = tv[0].e
+        name = u[0].e.decl().name()
+        f = lambda x: _mp_eval(e, {name: x})
+        how = "mpmath quadrature of the extracted expression"
     else:
-        la, lb = OC.slog10(code), OC.slog10(ratio)
-        log_quotient_axioms(S.zreal(code), S.zreal(la), S.zreal(ratio), S.zreal(lb), S.zreal(S.div(d_, S.add(d_, EPS32))))
-        body = S.le(S.sabs(S.sub(S.mul(10, la), S.mul(10, lb))), Fraction(1, 1000))
-        ctx.ensure("lemma_eps_moves_snr_by_at_most_1e-3_dB", S.lor(S.lnot(pre), body))
+        def f(x):
+            return mp.mpf(float(eval_at(ctx, fn, ((n,), dev), {}, [(np.array([Fraction(float(x))] + [Fraction(1, 4)] * (n - 1), dtype=object), None)])[0]))
+
+        how = "mpmath quadrature of the real function (native replay)"
+    mp.mp.dps = 20
+    c = mp.mpf("0.4999995")
+    pts = [0, mp.mpf("0.5") - c, mp.mpf("0.25"), mp.mpf("0.5"), mp.mpf("0.75"), mp.mpf("0.5") + c, 1]
+    pts = [pts[0], mp.mpf("1e-9")] + pts[1:-1] + [1 - mp.mpf("1e-9"), pts[-1]]
+    if ctx.mode != "sym":
+        pts = [mp.mpf("1e-7"), mp.mpf("0.01"), mp.mpf("0.25"), mp.mpf("0.499"), mp.mpf("0.501"), mp.mpf("0.75"), mp.mpf("0.99"), 1 - mp.mpf("1e-7")]
+        mp.mp.dps = 15
+    m1 = mp.quad(f, pts, maxdegree=6 if ctx.mode != "sym" else 8)
+    m2 = mp.quad(lambda x: f(x) ** 2, pts, maxdegree=6 if ctx.mode != "sym" else 8)
+    ctx.ensure("mean_zero", abs(m1) <= 1e-6, note=f"E T = {mp.nstr(m1, 8)} ({how})")
+    ctx.ensure("second_moment_2_within_1e-3", abs(m2 - 2) <= 2e-3, note=f"E T^2 = {mp.nstr(m2, 12)} = 2(1 - {mp.nstr(1 - m2 / 2, 4)}) ({how})")
+
+
+def _lap_cfgs(tier):
+    out = []
+    for kind, shp in (("real", "n3"), ("complex", "n2")) + ((("real", "2x2"), ("complex", "2x2")) if tier == "thorough" else ()):
+        out.append(Cfg("laplacian", kind, shp, "scale", "sym"))
+        out.append(Cfg("laplacian", kind, shp, "P", "sym"))
+        for p in (1e-3, 1e3) if tier == "quick" else P_GRID_T:
+            out.append(Cfg("laplacian", kind, shp, "P", p))
+        for s in (0.0, 10.0) if tier == "quick" else SNR_GRID_T:
+            out.append(Cfg("laplacian", kind, shp, "snr", s))
+    return out
+
+
+@obligation("C07.laplacian", function=FL + "forward; " + FU + ":snr_to_noise_power", configs=_lap_cfgs, max_paths=64, timeout_ms=60000)
+def laplacian(ctx, cfg):
+    """forward with the callee _get_laplacian_noise replaced by its contract (C07.laplacian_transform): fresh independent symbols t with
+    E t = 0, E t^2 = 2 (exactly 2(1-delta), delta <= 1e-3).  scale parameterisation: every real component is scale * t."""
+    from kaira.channels.analog import LaplacianChannel
+
+    _, kind, shp, how, val = cfg
+    shape = SHAPES[shp]
+    x = make_input(ctx, kind, shape)
+    ncomp = 2 if kind == "complex" else 1
+    with ctx.sym():
+        if how == "scale":
+            b = ctx.scalar("scale", "real", sampler=lambda r: 10 ** r.uniform(-2, 2))
+            ctx.assume(S.lt(0, b))
+            chan = LaplacianChannel(scale=power_tensor(ctx, b))
+            target, snr_lin = S.mul(2 * ncomp, sq(b)), None
+        else:
+            kw, target, snr_lin = _configure(ctx, how, val)
+            chan = LaplacianChannel(**kw)
+    requested = []
+
+    def stub(shape_, device):
+        requested.append(tuple(shape_))
+        return torch.randn(tuple(shape_))
+
+    chan._get_laplacian_noise = stub  # callee contract instead of the callee body (modular step)
+    out = ctx.call(chan.forward, x)
+    ctx.ensure("returns", out.ok, note=repr(out.exc) if not out.ok else "")
+    if not out.ok:
+        return
+    y = out.value
+    ctx.ensure("shape_dtype_preserved", SP.shape_is(y, shape) and y.dtype == x.dtype)
+    ctx.ensure("input_unmodified", out.unmodified)
+    ctx.ensure("one_unit_laplacian_per_real_component", all(r == tuple(shape) for r in requested) and len(requested) >= 1)
+    xr, xi = PC(x)
+    noise_algebra(ctx, chan.forward, (x,), {}, y, (xr, xi), list(ctx.rng_draws), target=target, snr_lin=snr_lin, signal_power=mean_abs2(xr, xi), var_override=2)
